@@ -89,7 +89,9 @@ func (s *Translator) buildOptionalMatchAggregationStep(aggregationFrame *Frame) 
 	// join to the origin frame (prior to the OPTIONAL MATCH) based on the OPTIONAL MATCH's frame.
 	var (
 		optMatchFrame = aggregationFrame.Previous
-		originFrame   = optMatchFrame.Previous
+		// In a query part that is followed by WITH the frame before the OPTIONAL MATCH is the part's own
+		// frame, whose definition this step is part of; the origin is the frame before that.
+		originFrame, _ = s.previousValidFrame(optMatchFrame)
 	)
 
 	// originFrame could be nil if no previous frame is defined (for ex., leading OPTIONAL MATCH, which is
